@@ -66,6 +66,7 @@ func c13(c *Ctx) {
 		c.check(q.bypass() == nil, r, fnName(f)+":closed-tx-refused", c.pos(f.Pos()), "store commit is dominated by closed==false", "a cancelled or already committed transaction can be committed")
 		c.ruleOrder(r, f, "closed=true", storeTo("OngoingTx.closed"), "st.commit", callTo(storeT+"commit"), nil, 1)
 	}
+	c12QueryFailureAborts(c, "C13.1/query-path-failure-aborts")
 	// execPreparedStmts: failure cancels (shared with C12.4), explicit-close transactions are not auto-committed
 	if f := c.mustFn(r, "embedded/sql.(*Engine).execPreparedStmts"); f != nil {
 		commits := sites(f, callTo(sqlTxT+"Commit"))
